@@ -909,6 +909,13 @@ const Family *find_family(const std::string &name, const std::string &tier)
       f.cfgs.push_back(c);
     }
     {
+      // the query cache owns the record a completion callback is looking at; a callback that changes the servers
+      // flushes the cache
+      Cfg c            = cfg("2srv-2tries-cache", 2, 2, 0);
+      c.qcache_max_ttl = 3600;
+      f.cfgs.push_back(c);
+    }
+    {
       // deferred writes: ares_process_pending_write() walks the server list while a failing flush completes queries
       Cfg c              = cfg("2srv-1try-usevc-tfo-pendingwrite", 2, 1, ARES_FLAG_USEVC);
       c.tfo              = true;
